@@ -1144,7 +1144,7 @@ def run(ck):
             rq = parse_req(sent[0]) if sent is not None else None
             rid = rq["id"] if rq else None
             ck.count("discover:asking-socket-%s(observation)" % ("closed" if ok_sock else "left-open"))
-            ck.count("discover:request-id-%s" % ("as-scripted" if rid == case["req_id"] else "drawn-otherwise(read off the request)"))
+            ck.count("discover:request-id-%s" % ("none-sent" if rid is None else "as-scripted" if rid == case["req_id"] else "drawn-otherwise(read off the request)"))
             nrep = sum(1 for b, _ in replies if (parse_resp(b) or {}).get("rid") == rid)
             ck.count("discover:%s" % ("raised" if isinstance(res, str) else "found-%d" % min(len(res), 3)))
             ck.count("discover:responders-%d" % len(case["responders"]))
